@@ -68,6 +68,8 @@ def draw_rule(r, spec, pool, p_good=0.85, static_bias=0.5):
     cfg = r.choice(A.CONFIG_NAMES)
   if op == '*' and algo == A.MINMAX and r.random() < 0.08:
     cfg = r.choice(A.ODD_CONFIGS)
+  if op == 'FULLY_CONNECTED' and algo == A.MINMAX and r.random() < 0.12:
+    cfg = r.choice(A.BLOCKWISE_RUNNABLE)
   regex = r.choice(pool) if r.random() < 0.55 else '.*'
   return [regex, op, cfg, algo]
 
